@@ -489,7 +489,7 @@ func run(c *lib.Ctx) error {
 		}
 	}
 	c.Set("runs_showing_the_known_pattern", npat)
-	skipped, err := drv.JudgeAll(c, dir, extra, items, c.Pick(3, 80), 5000, 6, func(it drv.Item, v *lib.TraceVerdict) {
+	skipped, err := drv.JudgeAll(c, dir, extra, items, c.Pick(3, 80), 5000, 6, "TraceInterruptName.cfg", func(it drv.Item, v *lib.TraceVerdict) {
 		reject(c, it, v)
 	})
 	if err != nil {
@@ -696,6 +696,6 @@ func replay(c *lib.Ctx, dir string, extra map[string][]byte) error {
 		}
 		items = append(items, drv.Item{What: "replay", Module: "TraceInterrupt", Events: r.evs, Case: one, Known: knownPattern(r.evs)})
 	}
-	_, err = drv.JudgeAll(c, dir, extra, items, 1, 5000, 4, func(it drv.Item, v *lib.TraceVerdict) { reject(c, it, v) })
+	_, err = drv.JudgeAll(c, dir, extra, items, 1, 5000, 4, "TraceInterruptName.cfg", func(it drv.Item, v *lib.TraceVerdict) { reject(c, it, v) })
 	return err
 }
